@@ -22,3 +22,11 @@ Theorem C03_error_designates_a_received_token :
   forall ts hs i, parse_tokens ts hs = PErr (Some i) -> exists t, In t ts /\ tidx t = i.
 Proof. exact parse_tokens_error_located. Qed.
 Print Assumptions C03_error_designates_a_received_token.
+
+(** Every token sequence that is not a sentence is rejected with a syntax error (the parser model
+    never runs out of its recursion budget: Parse/GrammarBudget.v). *)
+From GoSh Require Import Parse.GrammarBudget.
+Theorem C03_ill_formed_is_rejected :
+  forall ts hs, (forall sk hs', ~ G_program ts hs sk hs') -> exists e, parse_tokens ts hs = PErr e.
+Proof. exact ill_formed_rejected. Qed.
+Print Assumptions C03_ill_formed_is_rejected.
